@@ -36,8 +36,8 @@ impl C02 {
         C02 {
             tier,
             seed,
-            n_gen: scaled(tier.pick(15_000, 600_000), scale),
-            n_comp: scaled(tier.pick(9_000, 400_000), scale),
+            n_gen: scaled(tier.pick(15_000, 240_000), scale),
+            n_comp: scaled(tier.pick(9_000, 160_000), scale),
             n_shape: scaled(tier.pick(160, 3_200), scale),
             n_samples: tier.pick(16, 3 * streams::repo_sample_count()),
             n_dense: scaled(tier.pick(240, 6_000), scale),
